@@ -60,6 +60,8 @@ type pluginSpec struct {
 	tag            string   // names this plugin's files: plugins with different outs may share one
 	insertInto     int      // behaviour insert: index of the earlier plugin (same out) whose file receives the insertions
 	points         []string // behaviour insert: the insertion points used, in order
+	// emptyInsertionPoint: behaviour duplicate: the duplicate file carries insertion_point: ""
+	emptyInsertionPoint bool
 }
 
 type request struct {
@@ -230,7 +232,16 @@ func (h *handler) Handle(ctx context.Context, _ protoplugin.PluginEnv, w protopl
 	case "duplicate", "duplicate-spelling":
 		if spec.index > 0 && first != "" {
 			prev := m.plugins[spec.index-1]
-			add(outName(prev, first), "duplicate from "+spec.name, "")
+			if spec.emptyInsertionPoint {
+				// insertion_point present but empty (some runtimes always put the field on the wire):
+				// still an ordinary file, and still a duplicate
+				files = append(files, genFile{outName(prev, first), "duplicate from " + spec.name, ""})
+				w.AddCodeGeneratorResponseFiles(&pluginpb.CodeGeneratorResponse_File{
+					Name: proto.String(outName(prev, first)), Content: proto.String("duplicate from " + spec.name), InsertionPoint: proto.String(""),
+				})
+			} else {
+				add(outName(prev, first), "duplicate from "+spec.name, "")
+			}
 		}
 	case "hostile":
 		if first != "" {
@@ -386,6 +397,9 @@ func (m *gsim) drawPlugins() string {
 					// and receive the same files: same strategy and import settings
 					p.strategy, p.includeImports, p.includeWKT = prev.strategy, prev.includeImports, prev.includeWKT
 				}
+			}
+			if p.behaviour == "duplicate" || p.behaviour == "duplicate-spelling" {
+				p.emptyInsertionPoint = m.tp.Draw("g.emptyip", 2) == 1
 			}
 			if p.behaviour == "hostile" {
 				p.hostileName = tape.Pick(m.tp, "g.hostile", hostileNames)
